@@ -2,6 +2,8 @@
  * C01 link 4 (ring substitution): the matrices A and B that vnacal_apply
  * hands to the linear solver are, cell by cell, the documented forms
  *     T types:  A = Ts - M' Tx,   B = M' Tm - Ti      (S = A^-1 B)
+ *     U types:  A = Ux M' + Us,   B = Um M' + Ui      (S = B A^-1)
+ *     UE14:     the U form column by column with per-column terms
  * with M' = M minus the outside leakage terms (off-diagonal, row-major),
  * for the diagonal (T8/TE10) and full (T16) layouts.
  *
@@ -29,6 +31,9 @@ typedef unsigned char verif_ring_t;
 
 #ifndef N
 #define N 2
+#endif
+#ifndef FILL_FORM
+#define FILL_FORM 0
 #endif
 #define ETERMS_MAX (4 * N * N + N * N)
 
@@ -61,7 +66,27 @@ void h_fill_t(void)
 	    mp = (verif_ring_t)(mp - e[VL_EL_OFFSET(&vl) + el_index]);
 	}
 	CHECK(m[g_r * N + g_c] == mp, "M has the outside leakage term of exactly that cell subtracted");
-#if FILL_FULL
+#if FILL_FORM == 2
+	/* U8/UE10 (diagonal sub-matrices): A = Ux M' + Us, B = Um M' + Ui  (S = B A^-1) */
+	ea = (verif_ring_t)(mp * e[VL_UX_OFFSET(&vl) + g_r] + (g_r == g_c ? e[VL_US_OFFSET(&vl) + g_r] : 0));
+	eb = (verif_ring_t)(mp * e[VL_UM_OFFSET(&vl) + g_r] + (g_r == g_c ? e[VL_UI_OFFSET(&vl) + g_r] : 0));
+	(void)ts; (void)ti; (void)tx; (void)tm;
+#elif FILL_FORM == 3
+	/* U16 (full sub-matrices): A = Ux M + Us (Ux: s_columns x m_rows), B = Um M + Ui */
+	ea = e[VL_US_OFFSET(&vl) + g_r * N + g_c];
+	eb = e[VL_UI_OFFSET(&vl) + g_r * N + g_c];
+	for (int k = 0; k < N; ++k) {
+	    verif_ring_t mk = m[k * N + g_c];
+	    ea = (verif_ring_t)(ea + e[VL_UX_OFFSET(&vl) + g_r * N + k] * mk);
+	    eb = (verif_ring_t)(eb + e[VL_UM_OFFSET(&vl) + g_r * N + k] * mk);
+	}
+	(void)ts; (void)ti; (void)tx; (void)tm;
+#elif FILL_FORM == 4
+	/* UE14: column g_c is its own system with its own terms: A(:,c) = c_Ux M'(:,c) + c_us11 e_c, B(:,c) = c_Um M'(:,c) + c_ui11 e_c */
+	ea = (verif_ring_t)(mp * e[VL_UX14_OFFSET(&vl, g_c) + g_r] + (g_r == g_c ? e[VL_US14_OFFSET(&vl, g_c)] : 0));
+	eb = (verif_ring_t)(mp * e[VL_UM14_OFFSET(&vl, g_c) + g_r] + (g_r == g_c ? e[VL_UI14_OFFSET(&vl, g_c)] : 0));
+	(void)ts; (void)ti; (void)tx; (void)tm;
+#elif FILL_FULL
 	/* T16: A = Ts - M' Tx (Ts: m_rows x s_rows, Tx: m_columns x s_rows); B = M' Tm - Ti */
 	ea = e[VL_TS_OFFSET(&vl) + g_r * N + g_c];
 	eb = (verif_ring_t)(0 - e[VL_TI_OFFSET(&vl) + g_r * N + g_c]);
@@ -80,7 +105,7 @@ void h_fill_t(void)
 	ea = (verif_ring_t)((g_r == g_c ? ts : 0) - mp * tx);
 	eb = (verif_ring_t)(mp * tm - (g_r == g_c ? ti : 0));
 #endif
-	CHECK(a[g_r * N + g_c] == ea, "A cell equals (Ts - M Tx) cell");
-	CHECK(b[g_r * N + g_c] == eb, "B cell equals (M Tm - Ti) cell");
+	CHECK(a[g_r * N + g_c] == ea, "A cell equals the documented form (T: Ts - M Tx; U: Ux M + Us)");
+	CHECK(b[g_r * N + g_c] == eb, "B cell equals the documented form (T: M Tm - Ti; U: Um M + Ui)");
     }
 }
